@@ -215,3 +215,21 @@ Example simplify_unused_total_ex :
   esize (simplify_boolean (w_unbound Wgood) ex_sb) = 9%nat /\ esize ex_sb = 11%nat /\
   simplify_unused (w_unbound Wgood) false (EBin BLogAnd ex_sb (EId 1 false false)) <> UFuel.
 Proof. repeat split; vm_compute; try reflexivity; discriminate. Qed.
+
+From V Require Import C03.Stmt C03.StmtProofs.
+(* stmt_normal_form_sound / mangle_stmts_equiv_partial on a real rewrite of the parser:
+     if (x) return g(); h(); return k();   =>   return x ? g() : (h(), k());
+   same normal form, and the body runs (x is truthy in Wgood: the call is logged, its result returned) *)
+Definition ex_ms_call (r : Z) : expr := ECall (EId r false false) [] 0 false.
+Definition ex_ms_in : list stmt :=
+  [SIf (EId 1 false false) (SReturn (Some (ex_ms_call 1000))) SEmpty; SExpr (ex_ms_call 1001); SReturn (Some (ex_ms_call 1002))].
+Definition ex_ms_out : list stmt :=
+  [SReturn (Some (EIf (EId 1 false false) (ex_ms_call 1000) (EBin BComma (ex_ms_call 1001) (ex_ms_call 1002))))].
+Example mangle_stmts_ex :
+  norm_fn (w_unbound Wgood) ex_ms_in = norm_fn (w_unbound Wgood) ex_ms_out /\
+  norm_fn (w_unbound Wgood) ex_ms_in =
+    TIf (EId 1 false false) (TRet (Some (ex_ms_call 1000))) (TEff (ex_ms_call 1001) (TRet (Some (ex_ms_call 1002)))) /\
+  exec_fn Wgood (fun _ _ => ([], Val VUndef)) [] ex_ms_in = Some ([99], CReturn VUndef) /\
+  check_mangle_stmts (w_unbound Wgood) (ex_ms_in, ex_ms_out) = true /\
+  check_mangle_stmts (w_unbound Wgood) (ex_ms_in, [SReturn (Some (ex_ms_call 1002))]) = false.
+Proof. repeat split; vm_compute; reflexivity. Qed.
